@@ -157,6 +157,26 @@ def w_alias(_):
         acc.n += 1
         if not (np.array_equal(H, H0) and np.array_equal(V, V0)):
             acc.bad("conv:argument_array_modified_by_the_call", {"kind": "alias", "f": f.__name__})
+    # distance / bearing with array arguments (coordinates and the optional altitude H, float and int): the same buffers
+    # passed again must give the same answer, nothing the caller passed may be modified, symmetry must hold call after call
+    la1, lo1 = np.array([52.3, -33.9, 10.0, 89.0]), np.array([4.8, 151.2, 179.9, -60.0])
+    la2, lo2 = np.array([40.6, -37.0, 10.5, -89.0]), np.array([-73.8, 174.8, -179.9, 120.0])
+    for Harr in (np.array([0.0, 1000.0, 11000.0, 20000.0]), np.array([0, 1000, 11000, 20000]), np.array(5000.0), 3000.0, 0):
+        keep = [np.array(x, copy=True) for x in (la1, lo1, la2, lo2, Harr)]
+        want = np.array([float(aero.distance(float(a), float(b), float(c), float(d), float(h))) for a, b, c, d, h in
+                         zip(la1, lo1, la2, lo2, np.broadcast_to(np.asarray(Harr, dtype=float), la1.shape))])
+        for rep in range(3):
+            acc.n += 2
+            d12 = np.asarray(aero.distance(la1, lo1, la2, lo2, Harr), dtype=float)
+            d21 = np.asarray(aero.distance(la2, lo2, la1, lo1, Harr), dtype=float)
+            if not (np.allclose(d12, want, rtol=1e-9, atol=1e-3) and np.allclose(d21, want, rtol=1e-9, atol=1e-3)):
+                acc.bad("distance:result_changes_when_the_same_argument_arrays_are_passed_again", {"kind": "alias", "f": "distance", "H": repr(Harr)[:40], "call": rep})
+                break
+            b = np.asarray(aero.bearing(la1, lo1, la2, lo2), dtype=float)
+            if not np.all((b >= 0) & (b < 360)):
+                acc.bad("bearing:outside_[0,360)", {"kind": "alias", "f": "bearing"})
+        if not all(np.array_equal(x, y) for x, y in zip(keep, (la1, lo1, la2, lo2, Harr))):
+            acc.bad("distance:argument_array_modified_by_the_call", {"kind": "alias", "f": "distance", "H": repr(Harr)[:40]})
     # scalar calls interleaved with array calls on equal values
     for f in fns1:
         a = float(f(11000.0))
